@@ -14,7 +14,9 @@ Inductive mstep :=
 | MCancel (t : nat)       (* cancel caller t's context (possibly before it arrives) *)
 | MRelease (r : resp).    (* let the gated download (if any) return r *)
 
-Inductive input := Script (skip : bool) (steps : list mstep).
+Inductive input :=
+| Script (skip : bool) (steps : list mstep)
+| RaceSoak.   (* thorough tier: the scripts and free-running stress rounds under the Go race detector *)
 
 Inductive ekind := ECtx | EFetch | ENoKey | EMultiple | ESig.
 Inductive status := SPending | SOk | SOkBad (* wrong payload returned *) | SErr (k : ekind).
@@ -25,7 +27,7 @@ Record snap := mkSnap {
   s_stat : list status;     (* per caller, arrival order *)
   s_cache : list nat }.     (* key materials in cachedKeys (verif hook) *)
 
-Inductive observed := OScript (snaps : list snap) | OPanic.
+Inductive observed := OScript (snaps : list snap) | OPanic | ORace (clean : bool).
 
 (* ---------------- model runner ---------------- *)
 
@@ -66,7 +68,10 @@ Fixpoint run_script (w : world) (ms : list mstep) : list snap :=
   end.
 
 Definition model (i : input) : observed :=
-  match i with Script skip ms => OScript (run_script (init skip) ms) end.
+  match i with
+  | Script skip ms => OScript (run_script (init skip) ms)
+  | RaceSoak => ORace true
+  end.
 
 (* ---------------- the property on what the implementation did ---------------- *)
 
@@ -171,7 +176,8 @@ Fixpoint check_steps (g : truth) (p : snap) (ms : list mstep) (ss : list snap) :
 Definition spec (i : input) (o : observed) : bool :=
   match i, o with
   | Script _ ms, OScript ss => check_steps (mkGt [] [] [] 0) (mkSnap 0 false [] []) ms ss
-  | _, OPanic => false
+  | RaceSoak, ORace clean => clean   (* no data race reported, no schedule-independent fact violated *)
+  | _, _ => false
   end.
 
 Definition snap_eqb (a b : snap) : bool :=
@@ -182,6 +188,7 @@ Definition obs_eqb (a b : observed) : bool :=
   match a, b with
   | OScript x, OScript y => list_eqb snap_eqb x y
   | OPanic, OPanic => true
+  | ORace x, ORace y => Bool.eqb x y
   | _, _ => false
   end.
 
@@ -205,6 +212,7 @@ Definition path (i : input) (o : observed) : nat :=
               + 128 * b2n skip
           end
       end
+  | RaceSoak, _ => 255
   | _, _ => 0
   end.
 
